@@ -4,6 +4,7 @@ set -e
 cd "$(dirname "$0")"
 export CARGO_NET_OFFLINE=true
 [ -f harness/Cargo.lock ] || cp /repo/Cargo.lock harness/Cargo.lock
+sed -i 's#path = "[^"]*/numbat"#path = "/repo/numbat"#' harness/Cargo.toml
 (cd harness && cargo build --offline --quiet)
 python3 - <<'PY'
 import sys; sys.path.insert(0, "tools")
